@@ -7,8 +7,8 @@ From Onet Require Export Base.Corr Node.Instance Node.Obs.
 
 (* which variant of the code the correspondence compares with; the integrator
    flips a flag when the corresponding fix commit lands in /repo *)
-Definition code_fixed_F02 := false.
-Definition code_fixed_F03 := false.
+Definition code_fixed_F02 := true.
+Definition code_fixed_F03 := true.
 Definition code_variant : fixes := {| fix_f02 := code_fixed_F02; fix_f03 := code_fixed_F03 |}.
 
 (* one scenario: a tree, the node position of each (fresh) instance, the
